@@ -15,7 +15,7 @@ FIXES = [  # (commit, property, also-reverse-first)
     ("67a6f3f", "C01", []), ("c55c7c6", "C01", []), ("a637c7e", "C02", []), ("482a715", "C02", []),
     ("5f481c7", "C12", ["a637c7e"]),
     ("0ec96d8", "C16", []), ("22eeea8", "C16", []), ("086c0cc", "C05", []), ("3b58009", "C04", []),
-    ("a1345df", "C01", []), ("20b75a5", "C01", []),
+    ("a1345df", "C01", []), ("20b75a5", "C01", []), ("a3c8cc9", "C04", []),
 ]
 VERIF = os.path.dirname(os.path.dirname(os.path.abspath(__file__)))
 only = sys.argv[1:]
